@@ -86,7 +86,7 @@ Proof. vm_compute; reflexivity. Qed.
 Example axis_following_refuted :
   run spec_flags (EStep (ch (ch (chp p_c_l1 n_k (EFun0 FTrue)) n_zz) n_zz) false AxFollowing (TStar None) PNil) = ONodes [] /\
   run spec_flags (EStep (ch (ch p_c_l1 n_in) n_x) false AxFollowing (TStar None) PNil) = ONodes [17; 19; 21; 23; 25; 27] /\
-  run (Build_flags 64 true true true true true true true true true true true true true false true true true true true true true true true true)
+  run (Build_flags 64 true true true true true true true true true true true true true false true true true true true true true true true true true)
       (EStep (ch (ch p_c_l1 n_in) n_x) false AxFollowing (TStar None) PNil) = ONodes [].
 Proof. repeat split; vm_compute; reflexivity. Qed.
 
@@ -94,7 +94,7 @@ Proof. repeat split; vm_compute; reflexivity. Qed.
    are included *)
 Example axis_preceding_refuted :
   run spec_flags (EStep (ch p_c_l1 n_v) false AxPreceding (TStar None) PNil) = ONodes [3; 5; 7; 9; 11; 13; 15; 19] /\
-  run (Build_flags 64 true true true true true true true true true true true true true false true true true true true true true true true true)
+  run (Build_flags 64 true true true true true true true true true true true true true false true true true true true true true true true true true)
       (EStep (ch p_c_l1 n_v) false AxPreceding (TStar None) PNil) = ONodes [1; 3; 5; 7; 9; 11; 13; 15; 17; 19].
 Proof. split; vm_compute; reflexivity. Qed.
 
